@@ -155,10 +155,12 @@ func NewAOFEngine(options ...func(engine *Engine)) (*Engine, error) {
 	return engine, nil
 }
 
-func (engine *Engine) LogCommand(database int, command []byte) {
+func (engine *Engine) LogCommand(database int, command []byte) error {
 	if err := engine.appendStore.Write(database, command); err != nil {
 		log.Printf("log command error: %+v\n", err)
+		return err
 	}
+	return nil
 }
 
 func (engine *Engine) RewriteLog() error {
